@@ -18,6 +18,8 @@ const STATE: &[&str] = &["absent", "direct", "compressed", "free"];
 const ROOT: &[&str] = &["root-unchanged", "own-root"];
 const GROW: &[&str] = &["no-new-object", "new-object-6"];
 const VALKIND: &[&str] = &["dict", "int", "name", "array"];
+/// which object numbers the history varies, and whether an update that frees an object restates object 0 (the head of the free list)
+const LAYOUT: &[&str] = &["objects-3..,head-restated", "objects-1..,head-restated", "objects-1..,head-not-restated", "objects-3..,head-not-restated"];
 
 fn tagged(kind: usize, sec: usize, nr: u64) -> Val {
     let tag = (sec as i64 + 1) * 1000 + nr as i64;
@@ -39,11 +41,15 @@ pub fn history_case(ch: &mut Chooser, t: &mut Tally) {
     let nobj = N_OBJECTS.load(Ordering::Relaxed);
     let nsec = ch.pick_free_named("sections", NSEC) + 1;
     let valkind = ch.pick_named("valkind", VALKIND);
+    let layout = ch.pick_named("layout", LAYOUT);
+    let first_nr: u64 = if layout == 1 || layout == 2 { 1 } else { 3 };
+    let (cat_nr, pages_nr): (u64, u64) = if first_nr == 1 { (7, 8) } else { (1, 2) };
+    let restate_head = layout == 0 || layout == 1;
     let mut fb = FileBuilder::new(b"");
     let mut cur_gen: std::collections::BTreeMap<u64, u16> = Default::default();
     let mut in_use: std::collections::BTreeMap<u64, bool> = Default::default();
     let mut expect: std::collections::BTreeMap<u64, Expect> = Default::default();
-    let mut root_nr = 1u64;
+    let mut root_nr = cat_nr;
     let mut descr: Vec<String> = vec![];
     let mut last_id = vec![];
     for sec in 0..nsec {
@@ -57,22 +63,23 @@ pub fn history_case(ch: &mut Chooser, t: &mut Tally) {
         let grow = if sec > 0 { ch.pick_named("grow#", GROW) } else { 0 };
         // section 0 always carries catalog + pages
         if sec == 0 {
-            let (cat, pages) = minimal_catalog();
-            fb.add(1, 0, &cat);
-            fb.add(2, 0, &pages);
-            expect.insert(1, Expect::Value(cat));
-            expect.insert(2, Expect::Value(pages));
+            let (_, pages) = minimal_catalog();
+            let cat = Val::dict(vec![("Type", Val::name("Catalog")), ("Pages", Val::r(pages_nr))]);
+            fb.add(cat_nr, 0, &cat);
+            fb.add(pages_nr, 0, &pages);
+            expect.insert(cat_nr, Expect::Value(cat));
+            expect.insert(pages_nr, Expect::Value(pages));
         }
         if own_root == 1 {
             root_nr = 30 + sec as u64;
-            let cat = Val::dict(vec![("Type", Val::name("Catalog")), ("Pages", Val::r(2)), ("PageLayout", Val::name("OneColumn"))]);
+            let cat = Val::dict(vec![("Type", Val::name("Catalog")), ("Pages", Val::r(pages_nr)), ("PageLayout", Val::name("OneColumn"))]);
             fb.add(root_nr, 0, &cat);
             expect.insert(root_nr, Expect::Value(cat));
         }
         let mut members: Vec<(u64, Val)> = vec![];
         let mut d = format!("s{}:{}", sec, FORMAT[format]);
         for (i, &st) in states.iter().enumerate() {
-            let nr = 3 + i as u64;
+            let nr = first_nr + i as u64;
             let g = *cur_gen.get(&nr).unwrap_or(&0);
             d.push_str(&format!(" {}={}", nr, STATE[st]));
             match st {
@@ -120,7 +127,10 @@ pub fn history_case(ch: &mut Chooser, t: &mut Tally) {
                 fb.section.insert(n, Entry::Free { next, gen: *cur_gen.get(&n).unwrap_or(&0) });
                 next = n;
             }
-            fb.section.insert(0, Entry::Free { next, gen: 65535 });
+            // (the first section always lists object 0; an update need not)
+            if restate_head || sec == 0 {
+                fb.section.insert(0, Entry::Free { next, gen: 65535 });
+            }
         }
         let id = format!("id-of-section-{}", sec);
         last_id = id.clone().into_bytes();
@@ -220,7 +230,7 @@ pub fn run(tier: Tier, _seed: u64, tally: &mut Tally) -> CheckMeta {
     CheckMeta {
         prop: "C02",
         level: "model_checking",
-        rule: format!("full product of update histories: 1..3 sections x {{table, stream}} x subsection split x per object number ({} numbers) {{absent, direct, compressed, free}} as free dimensions (full product), with option deviations (quick: <= 1 for two object numbers, 0 for three; thorough: <= 2 for two, <= 1 for three) among {{subsection split per entry, own /Root, a new object number, value kind int/name/array}}; ill-formed histories (compressed object in a table section or with generation > 0) are skipped and not counted. Each file is produced by the independent assembler (generations bumped on free/re-use, free list linked), loaded with the library and every object number below /Size resolved and compared with the reference model (map number -> newest mention); trailer root/size/ID must be the newest section's. Non-trivial = more than one section; distinct by file hash.", nobj),
+        rule: format!("full product of update histories: 1..3 sections x {{table, stream}} x subsection split x per object number ({} numbers) {{absent, direct, compressed, free}} as free dimensions (full product), with option deviations (quick: <= 1 for two object numbers, 0 for three; thorough: <= 2 for two, <= 1 for three) among {{subsection split per entry, own /Root, a new object number, value kind int/name/array, layout: varied object numbers start at 1 instead of 3 / an update that frees objects does not restate object 0}}; ill-formed histories (compressed object in a table section or with generation > 0) are skipped and not counted. Each file is produced by the independent assembler (generations bumped on free/re-use, free list linked), loaded with the library and every object number below /Size resolved and compared with the reference model (map number -> newest mention); trailer root/size/ID must be the newest section's. Non-trivial = more than one section; distinct by file hash.", nobj),
         assumptions: vec!["hybrid-reference files (/XRefStm) are not generated".into(), "object numbers of the file's own xref/object streams are not compared".into()],
         exhaustive: true,
         bounds: json!({"sections": 3, "objects": 3, "option_deviations": if tier.thorough() { 2 } else { 1 }}),
